@@ -12,10 +12,27 @@ THEOREMS = [
     'Sbepp.Properties.C02.scalar_roundtrip',
 ]
 
+# translator tie of the layout arithmetic (extract/validator_layout.py -> Sbepp.Extracted.ValidatorLayout,
+# lean/Sbepp/Lemmas/ValidatorLayoutTie.lean): the layout the encoder relies on
+TIE_MODULE = 'Sbepp.Lemmas.ValidatorLayoutTie'
+TIE_PART = 'validator_layout'
+TIE_THEOREMS = ['Sbepp.Schema.LayoutTie.' + t for t in (
+    'validate_field_offset_tie', 'validate_element_offset_tie', 'validate_block_length_tie',
+    'composite_loop_tie', 'validate_encoding_composite_tie', 'members_loop_tie', 'validate_members_tie',
+    'nowrap_needed', 'wrap_accepts_overlap',
+    'extracted_field_offset_ok', 'extracted_field_offset_next', 'extracted_field_offset_below_min',
+    'extracted_field_offset_error', 'extracted_element_offset_const', 'extracted_element_offset_nonconst',
+    'extracted_element_offset_ok', 'extracted_element_offset_below_min', 'extracted_block_length_ok',
+    'extracted_block_length_below_min', 'extracted_block_length_error',
+    'compLeaves_step', 'vElementOffset_step', 'vFields_step', 'vLevelValues_step',
+    'compLeaves_skeleton', 'fieldLeaves_skeleton', 'composite_size_extracted', 'level_layout_extracted',
+    'message_layout_extracted')]
+THEOREMS += TIE_THEOREMS
+
 
 def run(chk):
     chk.extract()
-    proved = chk.prove(MODULE, THEOREMS, extra_targets=['Sbepp.Properties.C02'])
+    proved = chk.prove(MODULE, THEOREMS, extra_targets=['Sbepp.Properties.C02', TIE_MODULE])
     if chk.tier == 'thorough' and proved:
         chk.leanchecker(MODULE)
     n = 120 if chk.tier == 'thorough' else 32
@@ -35,6 +52,9 @@ def run(chk):
                  'distinct (schema, message, script); all are non-trivial')
     if chk.failed_obligations and not chk.violations:
         chk.report_unproved('theorem', chk.failed_obligations)
+    xfail = ((chk.extract_report or {}).get('parts', {}).get(TIE_PART, {'failed': {'part': 'not run'}}) or {}).get('failed')
+    if xfail and not chk.violations:
+        chk.report_unproved('extraction', {'part': TIE_PART, 'failed': xfail})
     chk.assumptions += [
         'Spec.encL is the byte-level meaning of the script; the generated setters are tied to it by the differential '
         'check only', 'leaf order/disjointness (Sorted) is proved for every layout accepted by the validator model '
